@@ -299,4 +299,3 @@ func (ex *Exec) decodeStructFrom(st *types.Struct, s *Struct, m *Map, fr *frame,
 	}
 	return true
 }
-
